@@ -44,7 +44,9 @@ type HistObs struct {
 
 var histTypeDir = map[string]string{"ca": "ca", "sa": "signingAuthority", "tsa": "tsa"}
 
-func histUnrelated() *Chain { return cachedChain("hist-unrelated", func() *Chain { return StdChain("hist-unrelated", 2, EC256) }) }
+func histUnrelated() *Chain {
+	return cachedChain("hist-unrelated", func() *Chain { return StdChain("hist-unrelated", 2, EC256) })
+}
 
 func runStoresHistory() int {
 	cases := readCases(*flagCases)
@@ -67,6 +69,9 @@ func runStoresHistory() int {
 			}
 			d := filepath.Join(root, "truststore", "x509", histTypeDir[typ], name)
 			must(os.MkdirAll(d, 0755))
+			if cont == "empty" {
+				continue // the store directory exists and holds nothing
+			}
 			cert := signerChain.Root()
 			switch cont {
 			case "unrelated":
